@@ -4,9 +4,10 @@ import json, glob, os, sys
 ROOT = os.path.dirname(os.path.dirname(os.path.abspath(__file__)))
 props = [json.loads(l) for l in open(os.path.join(ROOT, "properties.jsonl"))]
 specs = {}
+claimed = set(open(os.path.join(ROOT, "tools", "claimed.txt")).read().split())
 for f in sorted(glob.glob(os.path.join(ROOT, "spec", "C*.json"))):
     s = json.load(open(f))
-    if s.get("claimed", True):
+    if s["id"] in claimed:
         specs[s["id"]] = s
 na_reasons = {}
 p = os.path.join(ROOT, "tools", "not_applicable.json")
